@@ -1025,6 +1025,10 @@ fn is_tcp_only(ep: &str) -> bool {
 fn ttl_of(cfg: &Cfg, ep: &str) -> u64 {
     if ep.contains("versions") || ep.contains("bgdl") { cfg.ttl[0] } else if ep.contains("cdns") { cfg.ttl[1] } else { cfg.ttl[2] }
 }
+const TTL_NAMES: [&str; 3] = ["version-service (ribbit)", "cdn", "config"];
+fn ttl_name_of(ep: &str) -> &'static str {
+    if ep.contains("versions") || ep.contains("bgdl") { TTL_NAMES[0] } else if ep.contains("cdns") { TTL_NAMES[1] } else { TTL_NAMES[2] }
+}
 fn endpoint_ok(ep: &str) -> bool {
     !ep.is_empty() && ep.len() <= 1000 && ep.chars().all(|c| c.is_alphanumeric() || matches!(c, '/' | '_' | '-' | '.'))
 }
@@ -1256,7 +1260,10 @@ fn oracle_group(lines: &[String], resps: &[String], mut fail: impl FnMut(&str, S
                             refc.remove(&rk);
                         }
                     } else if trace != "-" {
-                        fail("hit-with-traffic", format!("fresh cached answer but servers were contacted: {line} -> {resp}"), i);
+                        let own = ttl_of(c, ep);
+                        let stored = refc.get(&rk).map_or(0, |e| e.expires - own);
+                        let as_if: Vec<String> = (0..3).filter(|&k| c.ttl[k] != own && t >= stored + c.ttl[k]).map(|k| format!("{} {} ms", TTL_NAMES[k], c.ttl[k])).collect();
+                        fail("hit-with-traffic", format!("fresh cached answer (stored at {stored}, {} time-to-live {own} ms) but servers were contacted{}: {line} -> {resp}", ttl_name_of(ep), if as_if.is_empty() { String::new() } else { format!(" (as if stored with: {})", as_if.join(" / ")) }), i);
                     } else if res != want {
                         if res == "err:cache" {
                             fail("cache-file-deleted-under-other-client", format!("query fails with a cache error although an unexpired answer was stored: {line} -> {resp}"), i);
@@ -1290,6 +1297,12 @@ fn oracle_group(lines: &[String], resps: &[String], mut fail: impl FnMut(&str, S
                         fail("cache-file-deleted-under-other-client", format!("query fails with a cache error and no protocol was tried: {line} -> {resp}"), i);
                     } else if res.starts_with("ok:") && c.disk && stale_by.is_some() && stale_by != Some(ci) {
                         fail("cache-ttl-lost-new-client", format!("answer stored by client {} is served by client {ci} after its time-to-live ended, without traffic: {line} -> {resp}", stale_by.unwrap()), i);
+                    } else if res.starts_with("ok:") && stale_by == Some(ci) {
+                        // the storing client itself serves the answer past the TTL of the endpoint's class
+                        let own = ttl_of(c, ep);
+                        let stored = refc.get(&rk).map_or(0, |e| e.expires - own);
+                        let as_if: Vec<String> = (0..3).filter(|&k| c.ttl[k] != own && t < stored + c.ttl[k]).map(|k| format!("{} {} ms", TTL_NAMES[k], c.ttl[k])).collect();
+                        fail("answer-served-after-ttl", format!("answer stored at {stored} with the {} time-to-live ({own} ms) is served without traffic after it ended{}: {line} -> {resp}", ttl_name_of(ep), if as_if.is_empty() { String::new() } else { format!(" (as if stored with: {})", as_if.join(" / ")) }), i);
                     } else {
                         fail("no-traffic-without-cached-answer", format!("{line} -> {resp}"), i);
                     }
@@ -1526,6 +1539,53 @@ fn gen_ttl_groups(rng: &mut Rng, n: usize) -> Vec<Vec<String>> {
             for x in ttl { bounds.push(t + x); }
         }
         groups.push(g);
+    }
+    groups
+}
+
+/// TTL classes told apart: every endpoint class x the three TTLs (three pairwise different
+/// values) in every order x memory / disk cache x a re-query 300 ms before and 300 ms after EACH
+/// of the three TTL values (not only the class's own), one client. Every probe has its own
+/// endpoint of the class (fetched at t=0), so each probe alone says "hit strictly before the
+/// class's own TTL, refetch with a fresh answer after it" and a class that is stored with one of
+/// the two other TTLs is seen whichever of them is the larger.
+fn gen_ttl_class_groups(rng: &mut Rng, reps: usize) -> Vec<Vec<String>> {
+    const VALS: [u64; 3] = [600, 1200, 1800];
+    const PERMS: [[usize; 3]; 6] = [[0, 1, 2], [0, 2, 1], [1, 0, 2], [1, 2, 0], [2, 0, 1], [2, 1, 0]];
+    const HALVES: [[&str; 3]; 2] = [["versions", "cdns", "summary"], ["bgdl", "certs", "ocsp"]];
+    // 300 ms before / after 600, 1200, 1800 (the values are evenly spaced, so 6 probes fall on 4 instants)
+    const PROBES: [u64; 4] = [300, 900, 1500, 2100];
+    // answered by the first, second, third transport (TCP-only classes: always by the third)
+    const GOOD: [[&str; 3]; 4] = [["doc", "doc", "doc"], ["s503", "doc", "mime"], ["s500", "s429ra", "doc"], ["doc", "s404", "mime"]];
+    let mut groups = vec![];
+    for rep in 0..reps {
+        for perm in PERMS {
+            for disk in [false, true] {
+                for half in HALVES {
+                    let ttl = [VALS[perm[0]], VALS[perm[1]], VALS[perm[2]]];
+                    let mut id = 900_000 + (groups.len() as u32) * 100;
+                    let mut g = vec![format!("begin mode={} https=1 http=1 down=0 ttl={},{},{}", if disk { "disk" } else { "mem" }, ttl[0], ttl[1], ttl[2])];
+                    let n0 = 1 + rep * PROBES.len();
+                    // the 12 fetches are 70 ms apart (no two lines of a group share an instant) (a fetch takes up to ~25 ms when all groups
+                    // start together; the timing rule allows a line to start 120 ms late), and
+                    // every probe is placed relative to the fetch of its own endpoint
+                    let mut timed: Vec<(u64, String)> = vec![];
+                    for (i, kind) in half.iter().enumerate() {
+                        for (k, p) in PROBES.iter().enumerate() {
+                            let f = 70 * (i * PROBES.len() + k) as u64;
+                            let ep = endpoint(kind, n0 + k);
+                            let b = rng.pick(&GOOD);
+                            timed.push((f, format!("q 0 {f} {ep} {} {} {}", with_id(b[0], &mut id), with_id(b[1], &mut id), with_id(b[2], &mut id))));
+                            let b = rng.pick(&GOOD);
+                            timed.push((f + p, format!("q 0 {} {ep} {} {} {}", f + p, with_id(b[0], &mut id), with_id(b[1], &mut id), with_id(b[2], &mut id))));
+                        }
+                    }
+                    timed.sort_by_key(|x| x.0);
+                    g.extend(timed.into_iter().map(|x| x.1));
+                    groups.push(g);
+                }
+            }
+        }
     }
     groups
 }
@@ -1887,6 +1947,13 @@ fn split_groups(lines: &[String]) -> Vec<Vec<String>> {
 fn timing_ok(lines: &[String], res: &[(String, Option<QInfo>)]) -> bool {
     let short_ttl = lines[0].starts_with("begin") && !lines[0].contains("ttl=60000");
     if !short_ttl { return true; }
+    if std::env::var_os("C13_DEBUG").is_some() {
+        for (l, (_, i)) in lines.iter().zip(res) {
+            if let Some(q) = i.as_ref().filter(|q| q.late_ms > 120 || q.dur_ms > 120) {
+                eprintln!("timing: late={} dur={} :: {} :: {}", q.late_ms, q.dur_ms, lines[0], l);
+            }
+        }
+    }
     res.iter().all(|(_, i)| i.as_ref().is_none_or(|q| q.late_ms <= 120 && q.dur_ms <= 120))
 }
 
@@ -2114,6 +2181,25 @@ fn main() {
     let cdn_ttl = gen_cdn_ttl_groups(&mut rng, if th { 120 } else { 24 });
     let r = run_groups_parallel(cdn_ttl.clone(), 24, &mut retimed, &mut dropped);
     emit_groups(&mut s, &cdn_ttl, &r, "cdn-ttl");
+    // 9. TTL classes: every endpoint class x every order of three different TTLs x a re-query
+    //    just before / just after each TTL value, memory and disk cache
+    let ttl_class = gen_ttl_class_groups(&mut rng, if th { 3 } else { 1 });
+    let (before, before_rt) = (dropped, retimed);
+    let r = run_groups_parallel(ttl_class.clone(), 24, &mut retimed, &mut dropped);
+    emit_groups(&mut s, &ttl_class, &r, "ttl-class");
+    for (g, r) in ttl_class.iter().zip(&r) {
+        let Some(r) = r else { continue };
+        let mut seen: BTreeSet<&str> = BTreeSet::new();
+        for (l, resp) in g.iter().zip(r) {
+            let t: Vec<&str> = l.split(' ').collect();
+            if t[0] != "q" || seen.insert(t[3]) { continue; }
+            let kind = EP_KINDS.iter().find(|k| t[3].contains(*k)).copied().unwrap_or("?");
+            s.tally(&format!("ttlclass.{kind}.{}", if resp.starts_with("trace=- ") { "hit" } else { "refetch" }));
+        }
+    }
+    s.extra.insert("ttl_class_groups".into(), serde_json::json!(ttl_class.len()));
+    s.extra.insert("ttl_class_groups_dropped_for_timing".into(), serde_json::json!(dropped - before));
+    s.extra.insert("ttl_class_groups_rerun_for_timing".into(), serde_json::json!(retimed - before_rt));
 
     s.extra.insert("groups_rerun_for_timing".into(), serde_json::json!(retimed));
     s.extra.insert("groups_dropped_for_timing".into(), serde_json::json!(dropped));
